@@ -527,6 +527,37 @@ class _Idioms(ast.NodeTransformer):
             out.append(st)
         return out
 
+    @staticmethod
+    def _iterator_loops(stmts):
+        """it = iter(X); while True: v = next(it, None); if v is None: break; BODY   ->   for v in X: BODY
+        (`it` used nowhere else; holds for sequences without None elements -- the packets, frames and fields this code iterates over)"""
+        out = []
+        i = 0
+        while i < len(stmts):
+            st = stmts[i]
+            nxt = stmts[i + 1] if i + 1 < len(stmts) else None
+            done = False
+            if isinstance(st, ast.Assign) and len(st.targets) == 1 and isinstance(st.targets[0], ast.Name) and isinstance(st.value, ast.Call) and isinstance(st.value.func, ast.Name) \
+                    and st.value.func.id == 'iter' and len(st.value.args) == 1 and not st.value.keywords and isinstance(nxt, ast.While) and not nxt.orelse \
+                    and isinstance(nxt.test, ast.Constant) and nxt.test.value is True and len(nxt.body) >= 3:
+                itn = st.targets[0].id
+                a, b = nxt.body[0], nxt.body[1]
+                if isinstance(a, ast.Assign) and len(a.targets) == 1 and isinstance(a.targets[0], ast.Name) and isinstance(a.value, ast.Call) and isinstance(a.value.func, ast.Name) \
+                        and a.value.func.id == 'next' and len(a.value.args) == 2 and isinstance(a.value.args[0], ast.Name) and a.value.args[0].id == itn \
+                        and isinstance(a.value.args[1], ast.Constant) and a.value.args[1].value is None \
+                        and isinstance(b, ast.If) and not b.orelse and len(b.body) == 1 and isinstance(b.body[0], ast.Break) and ast.unparse(b.test) == f"{a.targets[0].id} is None":
+                    v = a.targets[0].id
+                    rest = nxt.body[2:]
+                    uses = sum(1 for s_ in stmts for n in ast.walk(s_) if isinstance(n, ast.Name) and n.id == itn)
+                    if uses == 2 and not any(isinstance(n, ast.Name) and n.id == v and isinstance(n.ctx, (ast.Store, ast.Del)) for r in rest for n in ast.walk(r)):
+                        f = ast.For(target=ast.Name(id=v, ctx=ast.Store()), iter=st.value.args[0], body=rest, orelse=[], type_comment=None)
+                        out.append(_fix(f, nxt)); ast.fix_missing_locations(out[-1])
+                        i += 2
+                        done = True
+            if not done:
+                out.append(st); i += 1
+        return out
+
     def _accumulate_loops(self, stmts):
         """`x = 0; for b in D: x = (x << 8) | b`  ->  `x = int.from_bytes(D, 'big')`   (D: a bytes parameter of the function; `reversed(D)`: 'little')"""
         out = []
@@ -594,6 +625,7 @@ class _Idioms(ast.NodeTransformer):
                     ast.fix_missing_locations(st)
             hoisted.append(st)
         stmts = self._accumulate_loops(self._unroll_literal_loops(self._split_parallel(hoisted)))
+        stmts = self._iterator_loops(stmts)
         out = []
         i = 0
         while i < len(stmts):
@@ -660,8 +692,14 @@ class _Idioms(ast.NodeTransformer):
         a subject that can be evaluated again without effect)"""
         node = self.generic_visit(node)
         subj = node.subject
+        pre = []
         if not _pure(subj):
-            return node
+            # evaluated once, into a name of its own
+            self._mcount = getattr(self, '_mcount', 0) + 1
+            tmp = f"subject__m{self._mcount}"
+            pre = [_fix(ast.Assign(targets=[ast.Name(id=tmp, ctx=ast.Store())], value=subj, type_comment=None), node)]
+            ast.fix_missing_locations(pre[0])
+            subj = ast.Name(id=tmp, ctx=ast.Load())
         def test_of(p):
             if isinstance(p, ast.MatchValue):
                 return ast.Compare(left=copy.deepcopy(subj), ops=[ast.Eq()], comparators=[p.value])
@@ -696,10 +734,10 @@ class _Idioms(ast.NodeTransformer):
         if len(chain) == 1:
             new = chain[0]
             _fix(new, node); ast.fix_missing_locations(new)
-            return new
+            return pre + [new] if pre else new
         new = ast.If(test=ast.Constant(True), body=chain, orelse=[])
         _fix(new, node); ast.fix_missing_locations(new)
-        return new
+        return pre + [new] if pre else new
 
     def visit_If(self, node):
         node = self.generic_visit(node)
